@@ -39,3 +39,10 @@ package glf
 //@ nostore (*Filter).Addresses props=C18
 //@ nostore (*Filter).Topics props=C18
 //@ nostore (*Filter).String props=C18
+
+// C14: the plan constructor. The address and topic lists handed to
+// eth_getLogs are copies of the ones given (same length, same entries).
+//@ func New props=C14
+//@   ensures [non-nil] result != nil
+//@   ensures [addresses-copied] len((*result).addresses) == len(addresses) && (forall k int :: 0 <= k && k < len(addresses) ==> (*result).addresses[k] == addresses[k])
+//@   ensures [topics-copied] len((*result).topics) == len(topics)
